@@ -60,14 +60,13 @@ def translate(repo):
     m = re.search(r"let instructions: \[u32; 3\] = if is_src_thumb \{\s*\[(.*?)\]\s*\} else \{\s*\[(.*?)\]\s*\};", arm, re.S)
     def elems(t): return [x.strip() for x in re.sub(r"//[^\n]*", "", t).split(",") if x.strip()]
     th, ar = (elems(m.group(1)), elems(m.group(2))) if m else ([], [])
-    C["ARM_T16_LDR_BX"] = num(th[0]) if len(th) == 3 and "target" in th[1] else -1
-    C["ARM_T16_PAD"] = num(th[2]) if len(th) == 3 else -1
+    C["ARM_T32_LDR_W"] = num(th[0]) if len(th) == 3 and "target" in th[2] else -1
+    C["ARM_T16_BX_NOP"] = num(th[1]) if len(th) == 3 else -1
     C["ARM_A32_LDR"] = num(ar[0]) if len(ar) == 3 and "target" in ar[2] else -1
     C["ARM_A32_BX"] = num(ar[1]) if len(ar) == 3 else -1
     C["ARM_PATCH_SIZE"] = find(arm, r"let patch_size = (\d+);")
-    m = re.search(r"patch\[0\] = (\w+);\s*patch\[1\] = (\w+);", arm)
-    C["ARM_T16_NOP"] = [num(m.group(1)), num(m.group(2))] if m else [-1]
-    C["ARM_ROTATE"] = find(arm, r"patch\.rotate_right\((\d+)\);")
+    m = re.search(r"patch\.copy_within\((\d+)\.\.(\d+), (\d+)\);\s*patch\[(\d+)\] = (\w+);\s*patch\[(\d+)\] = (\w+);", arm)
+    C["ARM_T32_FIXUP"] = [num(x) for x in m.groups()] if m else [-1]           # copy_within(a..b, c); patch[i] = x; patch[j] = y
     # the lifetime machine's configuration (src/interface): 1 = the shape the model assumes was found, 0 = it was not
     ri = lambda p: open(os.path.join(repo, "src", "interface", p)).read()
     inj, ver = ri("injector.rs"), ri("verifier.rs")
